@@ -71,6 +71,15 @@ int Var::div(Var &var_d, Var &var_s)
 {
   if (var_d.type == VAR_INT && var_s.type == VAR_INT)
   {
+    if (var_s.value_int == 0) { return -1; }
+
+    if (var_s.value_int == -1)
+    {
+      // INT64_MIN / -1 traps, the two's complement result is the negation.
+      value_int = (int64_t)(0 - (uint64_t)var_d.value_int);
+      return 0;
+    }
+
     value_int = var_d.value_int / var_s.value_int;
   }
     else
@@ -86,6 +95,11 @@ int Var::mod(Var &var_d, Var &var_s)
 {
   var_d.to_int();
   var_s.to_int();
+
+  if (var_s.value_int == 0) { return -1; }
+
+  // INT64_MIN % -1 traps, the remainder of a division by -1 is always 0.
+  if (var_s.value_int == -1) { value_int = 0; return 0; }
 
   value_int = var_d.value_int % var_s.value_int;
 
